@@ -4,6 +4,7 @@ from .. import cases as K
 from .. import common as C
 from ..layer_a import Engine, proj_kinds
 from ..runner import run_coexec, replay_coexec
+from ..deleg_part import DelegPart
 
 MODULE = "Props.C07"
 THEOREMS = ["C07_unmentioned", "C07_unmatched", "C07_quiet_and_no_value", "C07_history_quiet",
@@ -13,14 +14,14 @@ RULE = ("the whole decision table, enumerated: probed method in {m0: real fn onl
         "m3: default body only, m4/m5: the same with a non-Clone output} x {strict, partial} x {unmentioned, mentioned with an "
         "unordered pattern rejecting the argument, mentioned and matched (control), mentioned by an ordered pattern rejecting the "
         "argument} x all 8 argument values x position {first, middle, last} in a history of counted calls to another method, "
-        "finished by drop / verify() / report() (report() itself is the partial-by-default row: it is answered by the real report "
+        "with the probed call made on the original or on a clone, finished by drop / verify() / report() (report() itself is the partial-by-default row: it is answered by the real report "
         "in strict mocks too); the probed method's own pattern expects exactly one match so that a wrongly counted fall-through "
         "changes the verification text; distinct = canonical JSON; non-trivial = the probed call has no applicable pattern")
 
 SITUATIONS = ["unmentioned", "unmatched", "matched", "ordered_unmatched"]
 
 
-def make_case(mid, partial, sit, arg, pos, final, k):
+def make_case(mid, partial, sit, arg, pos, final, k, via="orig"):
     bg = 1 if mid != 1 else 0          # background method with counted responses
     terms = [{"kind": "call", "mid": bg, "opener": "each",
               "pat": {"matcher": 255, "dbg": 1, "ops": [("ret", 1), ("n", 2), ("then",), ("ret", 2), ("n", 1)]}}]
@@ -40,8 +41,12 @@ def make_case(mid, partial, sit, arg, pos, final, k):
     evs = bgcalls[:at] + [probe] + bgcalls[at:]
     if pos == "middle":
         evs.append({"base": ("call", 0, mid, arg)})   # the same probe twice
+    if via == "clone":
+        # the probe goes through a clone of the mock (the strict/partial switch and the patterns are shared state)
+        evs = [{"base": ("clone", 0)}] + [dict(e, base=("call", 1) + tuple(e["base"][2:])) if e is probe or e["base"] == probe["base"] else e
+                                            for e in evs] + [{"base": ("drop", 1)}]
     evs.append({"base": (final, 0)})
-    return {"partial": partial, "terms": terms, "events": evs, "_sit": sit}
+    return {"partial": partial, "terms": terms, "events": evs, "_sit": sit, "_via": via}
 
 
 def gen_cases(rng, tier):
@@ -53,7 +58,9 @@ def gen_cases(rng, tier):
                     for pos in ("first", "middle", "last"):
                         finals = ["drop", "verify", "report"] if tier == "thorough" else [["drop", "verify", "report"][k % 3]]
                         for final in finals:
-                            out.append(make_case(mid, partial, sit, arg, pos, final, k))
+                            vias = ["orig", "clone"] if tier == "thorough" else [["orig", "clone"][(k // 3) % 2]]
+                            for via in vias:
+                                out.append(make_case(mid, partial, sit, arg, pos, final, k, via))
                             k += 1
     return out
 
@@ -68,7 +75,19 @@ def stats(cases):
         d["situation:" + c["_sit"]] += 1
         d["partial" if c["partial"] else "strict"] += 1
         d["final:" + c["events"][-1]["base"][0]] += 1
+        d["via:" + c.get("_via", "orig")] += 1
     return dict(d)
+
+
+def sparse_deleg_case(rng):
+    """C15's generator with about half of the clauses removed and strict/partial at even odds: provided methods of every receiver
+    kind whose default bodies call required methods that no clause mentions (or whose patterns reject the argument) -- those inner
+    calls are made on the delegation helper's clone of the mock and must resolve exactly like direct calls"""
+    from . import C15
+    c = C15.gen_case(rng)
+    c["terms"] = [t for t in c["terms"] if rng.random() < 0.5]
+    c["partial"] = rng.random() < 0.5
+    return c
 
 
 def engines(tier):
@@ -78,8 +97,15 @@ def engines(tier):
 def run(tier, seed):
     return run_coexec("C07", tier, seed, module=MODULE, theorems=THEOREMS, gen_cases=gen_cases,
                       nontrivial=nontrivial, rule=RULE, engines=engines(tier), stats=stats,
-                      extra_cov={"exhaustive": True}, extra_obligations=C.inventory_obligation)
+                      extra_cov={"exhaustive": True}, extra_obligations=C.inventory_obligation,
+                      parts=[DelegPart("C07", sparse_deleg_case, "correspondence C07 (receiver part): unmentioned / unmatched calls made by default bodies "
+                                       "through delegation helpers of every receiver kind vs the model", rule=sparse_deleg_case.__doc__)])
 
 
 def replay(path):
+    import json
+    payload = json.load(open(path))
+    if payload.get("part") == "deleg":
+        from .. import deleg_part
+        return deleg_part.replay("C07", payload, path)
     return replay_coexec("C07", path, lambda p: Engine("C07", project=proj_kinds))
